@@ -9,6 +9,7 @@ CONSTANTS
   Gated = FALSE
   AllowGap = FALSE
   AllowPass = FALSE
+  AbortOnGap = TRUE
   DefectTakeAny = TRUE
   DefectNoJoin = FALSE
 INVARIANTS
@@ -20,6 +21,7 @@ INVARIANTS
   DbIsFoldOfPrefix
   FinalContent
   DropDrains
+  DropDrainsStrict
   NotifyAfterDurable
   StallOnlyBehindGap
   HeldBackBehindGap
